@@ -99,6 +99,26 @@ def trigger_script(rng, case):
                        'args': {'tasks': sorted(
                            f'{p}/{n}' for n, p in rng.sample(
                                sorted(group), min(len(group), 2)))}})
+    if rng.random() < 0.15:
+        # a member first triggered as a no-flow task, then the group around
+        # it in the default flow
+        seed = rng.choice(inst)
+        group = {seed} | set(rng.sample(
+            sorted(parents.get(seed, set()) | children.get(seed, set())
+                   | {rng.choice(inst)}), 1))
+        at = rng.randint(1, 10)
+        sc.append({'at': at, 'cmd': 'force_trigger_tasks',
+                   'args': {'tasks': ['%d/%s' % (seed[1], seed[0])],
+                            'flow': ['none']}})
+        sc.append({'at': at + rng.randint(1, 4), 'cmd': 'force_trigger_tasks',
+                   'args': {'tasks': sorted(f'{p}/{n}' for n, p in group),
+                            'flow': ['all']}})
+    if rng.random() < 0.2:
+        # a pooled task together with one of its parents
+        sc.append({'at': rng.randint(2, 16), 'cmd': 'force_trigger_tasks',
+                   'args': {'tasks': ['@pooled-chain'],
+                            'flow': rng.choice([['all'], ['none'], ['new'],
+                                                ['1']])}})
     if rng.random() < 0.25:
         # a retained finished task together with its dependants: they must
         # wait for its re-run, not be satisfied by its old outputs
